@@ -64,6 +64,17 @@ enum Set {
     Header(String, String, bool),
 }
 
+impl Set {
+    /// (no draw) for Accept-Encoding two of the values are the one token a caller writes to say "as stored"
+    fn identity_for_accept_encoding(self) -> Set {
+        match self {
+            Set::Header(n, v, a) if n.eq_ignore_ascii_case("accept-encoding") && v == "agent/9" => Set::Header(n, "identity".into(), a),
+            Set::Header(n, v, a) if n.eq_ignore_ascii_case("accept-encoding") && v == "text/html" => Set::Header(n, "Identity".into(), a),
+            other => other,
+        }
+    }
+}
+
 #[derive(Clone, Copy, Debug, PartialEq, Eq)]
 enum Probe {
     Chain,
@@ -106,6 +117,7 @@ fn gen_set(g: &mut G) -> Set {
             ]))
             .to_string(), (*g.pick(&["v1", "v2", "text/html", "agent/9", "br", ""])).to_string(), g.chance(1, 3)),
     }
+    .identity_for_accept_encoding()
 }
 
 fn gen_ops(g: &mut G) -> Vec<(usize, Op)> {
@@ -141,6 +153,36 @@ fn gen_ops(g: &mut G) -> Vec<(usize, Op)> {
         if !sent.contains(&b) && ops.len() < 40 {
             let t = g.usize_below(nthreads);
             ops.push((t, Op::Send(b)));
+        }
+    }
+    // (no draw) colliding names: with half a hundred names to pick from, two header operations on the same object
+    // (or on a request and the session it came from) seldom meet.  Every second one takes the name the object's
+    // previous header operation used, in the caller's own letter case
+    let mut last: std::collections::HashMap<usize, String> = std::collections::HashMap::new();
+    for (i, (_, op)) in ops.iter_mut().enumerate() {
+        match op {
+            Op::CloneSession(k) | Op::NewBuilder(k, _) => {
+                if let Some(n) = last.get(k).cloned() {
+                    last.insert(i, n);
+                }
+            }
+            Op::SessionSet(k, Set::Header(n, _, _)) | Op::BuilderSet(k, Set::Header(n, _, _)) => {
+                if let Some(prev) = last.get(k) {
+                    if i % 2 == 0 {
+                        *n = prev.clone();
+                        g.probe("header-operation-on-a-name-already-used-on-this-object");
+                    }
+                }
+                last.insert(*k, n.clone());
+            }
+            // ... and one other setter in five on such an object becomes a further operation on that name
+            Op::SessionSet(k, set) | Op::BuilderSet(k, set) if i % 5 == 4 => {
+                if let Some(prev) = last.get(k) {
+                    *set = Set::Header(prev.clone(), ["v1", "v2", "agent/9"][i % 3].to_string(), i % 4 == 0);
+                    g.probe("header-operation-on-a-name-already-used-on-this-object");
+                }
+            }
+            _ => {}
         }
     }
     ops
@@ -235,6 +277,13 @@ fn apply_builder(b: attohttpc::RequestBuilder, set: &Set) -> attohttpc::RequestB
         Set::Proxy(v) => b.proxy_settings(proxy_settings(*v)),
         Set::Charset(v) => b.default_charset(charset_of(*v)),
         Set::Compression(v) => b.allow_compression(*v),
+        Set::Header(n, _, false) if takes_out(set) => {
+            // (no draw) the caller takes the field out of this request again, through the map itself: what the
+            // session had put there is gone for this request (and only for it), a default comes back
+            let name = attohttpc::header::HeaderName::from_bytes(n.as_bytes()).unwrap();
+            b.headers_mut().remove(name);
+            b
+        }
         Set::Header(n, v, append) => {
             let name = attohttpc::header::HeaderName::from_bytes(n.as_bytes()).unwrap();
             if v.len() % 3 == 0 {
@@ -255,7 +304,19 @@ fn apply_builder(b: attohttpc::RequestBuilder, set: &Set) -> attohttpc::RequestB
     }
 }
 
-fn apply_model(m: &mut Settings, set: &Set) {
+/// On a request builder a non-appending set of the value `br` stands for "remove the field from the map".
+fn takes_out(set: &Set) -> bool {
+    matches!(set, Set::Header(_, v, false) if v == "br")
+}
+
+fn apply_model(m: &mut Settings, set: &Set, on_builder: bool) {
+    if on_builder && takes_out(set) {
+        if let Set::Header(n, _, _) = set {
+            let n = n.to_ascii_lowercase();
+            m.headers.retain(|(k, _)| *k != n);
+        }
+        return;
+    }
     match set {
         Set::MaxHeaders(v) => m.max_headers = *v,
         Set::MaxRedir(v) => m.max_redir = *v,
@@ -306,7 +367,7 @@ fn run_thread(sh: &Arc<Mutex<Shared>>, ops: &[(usize, Op)], me: usize) {
                 Op::SessionSet(k, set) => {
                     if let Obj::Session(s) = &mut g.objs[*k] {
                         apply_session(s, set);
-                        apply_model(g.model[*k].as_mut().unwrap(), set);
+                        apply_model(g.model[*k].as_mut().unwrap(), set, false);
                         g.executed.push(i);
                     }
                 }
@@ -329,6 +390,15 @@ fn run_thread(sh: &Arc<Mutex<Shared>>, ops: &[(usize, Op)], me: usize) {
                         }
                         .header("X-Req-Id", i.to_string());
                         m.header("x-req-id", &i.to_string(), false);
+                        // (no draw) a request that does not want one of the fields its session supplies takes it out of
+                        // the map; for Accept and User-Agent "the caller supplied none" is then true again
+                        let mut b = b;
+                        for (j, name) in ["accept", "user-agent", "accept-encoding", "x-a"].iter().enumerate() {
+                            if (i + j) % 2 == 0 && m.headers.iter().any(|(k, _)| k == name) {
+                                b.headers_mut().remove(*name);
+                                m.headers.retain(|(k, _)| k != name);
+                            }
+                        }
                         g.objs[i] = Obj::Builder(b, *probe);
                         g.model[i] = Some(m);
                         g.executed.push(i);
@@ -360,7 +430,7 @@ fn run_thread(sh: &Arc<Mutex<Shared>>, ops: &[(usize, Op)], me: usize) {
                     if let Obj::Builder(..) = &g.objs[*k] {
                         if let Obj::Builder(b, p) = std::mem::replace(&mut g.objs[*k], Obj::None) {
                             g.objs[*k] = Obj::Builder(apply_builder(b, set), p);
-                            apply_model(g.model[*k].as_mut().unwrap(), set);
+                            apply_model(g.model[*k].as_mut().unwrap(), set, true);
                             g.executed.push(i);
                         }
                     }
